@@ -353,7 +353,9 @@ CallV(f, e, s, st, deferred) ==
            preMismatch == IF ~e.spread THEN (~va /\ n # np) \/ (va /\ n < np - 1)
                           ELSE IF va THEN n # np /\ n # np - 1
                           ELSE n > np \/ n = 0 IN
-       IF preMismatch THEN Thr(IF \A j \in 1..n : e.args[j].k \in {"int", "str", "bool", "nil", "flt"} THEN st ELSE MarkOpen(st), RtErrV("arity"))
+       IF "SpreadSurplusDropped" \in Dev /\ e.spread /\ ~va /\ np = 0 /\ n >= 1     \* recorded deviation: a spread call of a function without parameters succeeds, its operands never run
+       THEN (IF deferred THEN Norm([st EXCEPT !.ds[Len(st.ds)] = Append(@, [f |-> f, args |-> <<>>])], NilV) ELSE Apply(f, <<>>, st))
+       ELSE IF preMismatch THEN Thr(IF \A j \in 1..n : e.args[j].k \in {"int", "str", "bool", "nil", "flt"} THEN st ELSE MarkOpen(st), RtErrV("arity"))
                                                                  \* rejected for arity: decided; whether operands that can be observed ran is left open
        ELSE IF e.spread /\ va /\ n = np - 1 THEN Thr(MarkOpen(st), RtErrV("open"))   \* spread list covering a fixed parameter too: open
        ELSE LET a == EvalSeq(e.args, 1, s, st, <<>>) IN
@@ -364,7 +366,10 @@ CallV(f, e, s, st, deferred) ==
                  ELSE IF vals0[n].t # "list" THEN Thr(a.st, RtErrV("spread"))
                  ELSE LET vals == SubSeq(vals0, 1, n - 1) \o vals0[n].l IN
                       IF ~va /\ Len(vals) < np THEN Thr(a.st, RtErrV("arity"))
-                      ELSE IF ~va /\ Len(vals) > np THEN Thr(MarkOpen(a.st), RtErrV("open"))     \* surplus spread elements: open
+                      ELSE IF ~va /\ Len(vals) > np THEN          \* more spread elements than parameters: a wrong argument count (recorded deviation: the surplus is dropped)
+                           (IF "SpreadSurplusDropped" \notin Dev THEN Thr(a.st, RtErrV("arity"))
+                            ELSE IF deferred THEN Norm([a.st EXCEPT !.ds[Len(a.st.ds)] = Append(@, [f |-> f, args |-> SubSeq(vals, 1, np)])], NilV)
+                            ELSE Apply(f, SubSeq(vals, 1, np), a.st))
                       ELSE IF deferred THEN Norm([a.st EXCEPT !.ds[Len(a.st.ds)] = Append(@, [f |-> f, args |-> vals])], NilV)
                       ELSE Apply(f, vals, a.st)
 
